@@ -164,6 +164,8 @@ def enc(ty, v):
         c = NAMED.get(ty[1])
         if c:
             return c[0](v)
+    if k == 'fn' and not ty[1]:
+        return enc(ty[2], v)        # a total thunk is its value
     if k == 'fn':
         return str(int(v))          # the code of a member of the closed family
     raise TypeError('cannot encode %r as %r' % (v, ty))
@@ -184,6 +186,8 @@ def enc_value(v):
 
 NAMED = {
     'Yaql.Value': (enc_value, None),
+    'Yaql.Scalar.SVal': (enc_value, None),
+    'Yaql.Scalar.Num': (enc_value, None),
     'Yaql.Strings.Atom': (enc_atom, None),
     'Nat': (lambda v: str(int(v)), None),
 }
@@ -243,6 +247,9 @@ def to_python(ty, v):
         return dict((to_python(ty[1], a), to_python(ty[2], b)) for a, b in v)
     if k == 'tup':
         return tuple(to_python(t, x) for t, x in zip(ty[1:], v))
+    if k == 'fn' and not ty[1]:
+        val = to_python(ty[2], v)
+        return lambda: val
     if k == 'fn':
         return ST.FN_FAMILIES[ty][1][v]
     return v
@@ -332,6 +339,8 @@ def gen_value(rng, ty, ctx, depth=0):
         g = NAMED_GEN.get(ty[1])
         if g:
             return g(rng, ctx)
+    if k == 'fn' and not ty[1]:
+        return gen_value(rng, ty[2], ctx, depth)
     if k == 'fn' and ty in ST.FN_FAMILIES:
         return rng.randrange(len(ST.FN_FAMILIES[ty][1]))
     raise TypeError('no generator for %r' % (ty,))
@@ -371,10 +380,31 @@ def gen_yvalue(rng, ctx, depth=0):
     return tuple(gen_yvalue(rng, ctx, depth + 1) for _ in range(rng.choice([0, 1, 2])))
 
 
+FLOATS = [0.0, -0.0, 0.5, 1.0, -1.0, 1.5, -2.5, 3.0, 1e16, 2.0 ** 53, 1e308, -1e308, 5e-324, float('inf'), float('-inf')]
+INTS = [0, 1, -1, 2, 3, -3, 7, -7, 10, 2 ** 53, 2 ** 53 + 1, -2 ** 63, 2 ** 64, 10 ** 400, -10 ** 400]
+
+
+def gen_num(rng, ctx):
+    return rng.choice(INTS) if rng.random() < 0.6 else rng.choice(FLOATS)
+
+
+def gen_sval(rng, ctx):
+    r = rng.random()
+    if r < 0.15:
+        return None
+    if r < 0.3:
+        return rng.random() < 0.5
+    if r < 0.75:
+        return gen_num(rng, ctx)
+    return rng.choice(['', 'a', 'b', 'ab', 'A', 'é'])
+
+
 NAMED_GEN = {
+    'Yaql.Scalar.SVal': gen_sval,
+    'Yaql.Scalar.Num': gen_num,
     'Yaql.Value': gen_yvalue,
     'Yaql.Strings.Atom': gen_atom,
-    'Nat': lambda rng, ctx: rng.choice([0, 1, 16, 17, 24, 40, 56, 64, 1000]),
+    'Nat': lambda rng, ctx: rng.choice([0, 32, 33, 40, 48, 56, 64, 100, 1000]),
 }
 
 
@@ -475,6 +505,7 @@ def differential(env, res, pid, oracle=None, per_target=None, only=None):
             if r is None:
                 continue
             pyargs, real = r
+            real = canon(real)
             ans = next(answers) if answers is not None else None
             sig = (t.name, repr(a))
             res.case(sig, nontrivial=True, sample='%s%r -> %r' % (t.name, tuple(a), real) if len(res.samples) < 3 else None)
@@ -491,8 +522,8 @@ def differential(env, res, pid, oracle=None, per_target=None, only=None):
                 res.fail('mismatch', 'src-driver:' + t.name, 'driver error for %s: %r' % (t.name, ans), rp)
                 continue
             else:
-                model_says = ans['model']
-                if ans['src'] != real and bad_src < 3:
+                model_says = canon(ans['model'])
+                if canon(ans['src']) != real and bad_src < 3:
                     bad_src += 1
                     res.fail('mismatch', 'src-translation:' + t.name,
                              'the Lean definition translated from %s gives %r, the function itself %r on %r '
@@ -512,6 +543,20 @@ def differential(env, res, pid, oracle=None, per_target=None, only=None):
     res.extra.setdefault('histogram', {})
     res.extra['src_differential'] = hist
     return hist
+
+
+def canon(j):
+    """wire values up to what python cannot tell apart: every NaN is one value"""
+    if isinstance(j, dict):
+        if set(j) == {'f'} and isinstance(j['f'], str) and len(j['f']) == 16:
+            w = int(j['f'], 16)
+            if (w >> 52) & 0x7ff == 0x7ff and w & ((1 << 52) - 1):
+                return {'f': '7ff8000000000000'}
+            return j
+        return {k: canon(v) for k, v in j.items()}
+    if isinstance(j, list):
+        return [canon(x) for x in j]
+    return j
 
 
 def _jsonable(a):
